@@ -625,6 +625,8 @@ Definition close_and_add_segment (cfg : config) (st : bstate) : res bstate :=
 
 Definition insert_new_segment (cfg : config) (st : bstate) (first wfirst : Z) : res bstate :=
   do st1 <- close_and_add_segment cfg st;
+  (* assert_address_in_memory (fix c350a24: a segment outside the address space is "Not enough space") *)
+  if negb (in_memory cfg first) then LibError KNoSpace else
   Ok (mkb first wfirst (b_nfj st1) (b_nwf st1) [] (b_dict st1) (b_fjw st1) (b_wfw st1) (b_wr st1)).
 
 (* insert_reserve_bits: add_segment_to_fjm(..., self.fj_words, []) clears fj_words only *)
